@@ -405,31 +405,48 @@ fn handle(req: &Value, table: &[(&'static str, &'static str, Expander)]) -> Valu
             }
             json!({"start": start, "cont": cont, "ws": ws})
         }
+        #[cfg(any(feature = "debug", feature = "display"))]
         "ident_probe" => {
-            // C18: code points the literal parser accepts in an identifier (unicode-xid tables) but
-            // `proc_macro2::Ident::new` (what `format_ident!` calls) rejects, for a range of code points
+            // C18: code points the REAL literal parser (fmt/parsing.rs `identifier`, through `format`) accepts at the
+            // start / inside of a placeholder name but `proc_macro2::Ident::new` (what `format_ident!("{name}")` in
+            // FmtAttribute::transparent_call calls) rejects, for a range of code points
+            use fmt_parsing_top as p;
             let lo = req["lo"].as_u64().unwrap_or(0) as u32;
             let hi = req["hi"].as_u64().unwrap_or(0) as u32;
-            use unicode_xid::UnicodeXID as _;
+            let accepted = |name: &str| -> bool {
+                let lit = format!("{{{name}}}");
+                match p::format(&lit) {
+                    Some((rest, f)) => {
+                        rest.is_empty() && matches!(f.arg, Some(p::Argument::Identifier(n)) if n == name)
+                    }
+                    None => false,
+                }
+            };
+            let ident_ok = |name: &str| -> bool {
+                let name = name.to_string();
+                panic::catch_unwind(move || proc_macro2::Ident::new(&name, proc_macro2::Span::call_site())).is_ok()
+            };
             let mut bad_start = Vec::new();
             let mut bad_cont = Vec::new();
+            let mut n_start = 0u32;
+            let mut n_cont = 0u32;
             for c in lo..hi {
                 if let Some(ch) = char::from_u32(c) {
-                    if ch.is_xid_start() {
-                        let s = ch.to_string();
-                        if panic::catch_unwind(|| proc_macro2::Ident::new(&s, proc_macro2::Span::call_site())).is_err() {
-                            bad_start.push(c);
-                        }
+                    let s = ch.to_string();
+                    if accepted(&s) {
+                        n_start += 1;
+                        if !ident_ok(&s) { bad_start.push(c); }
                     }
-                    if ch.is_xid_continue() {
-                        let s = format!("a{ch}");
-                        if panic::catch_unwind(|| proc_macro2::Ident::new(&s, proc_macro2::Span::call_site())).is_err() {
-                            bad_cont.push(c);
+                    for pre in ["a", "_"] {
+                        let s = format!("{pre}{ch}");
+                        if accepted(&s) {
+                            n_cont += 1;
+                            if !ident_ok(&s) { bad_cont.push(c); break; }
                         }
                     }
                 }
             }
-            json!({"bad_start": bad_start, "bad_cont": bad_cont})
+            json!({"bad_start": bad_start, "bad_cont": bad_cont, "n_start": n_start, "n_cont": n_cont})
         }
         _ => json!({"bad_request": format!("unknown cmd {cmd}")}),
     }
